@@ -190,8 +190,8 @@ fn xorshift(s: &mut u64) -> u64 {
 pub fn run(tier: Tier, rep: &mut Report) -> (String, String) {
     // (alphabet, max haystack len, max needle len)
     let fams: Vec<(&[u8], usize, usize)> = match tier {
-        Tier::Quick => vec![(b"ab", 10, 6), (b"abc", 6, 4), (&[0x61, 0xC3, 0xB1, 0xFF], 5, 3)],
-        Tier::Thorough => vec![(b"ab", 13, 7), (b"abc", 8, 5), (&[0x61, 0xC3, 0xB1, 0xFF], 6, 4)],
+        Tier::Quick => vec![(b"ab", 11, 6), (b"abc", 7, 4), (&[0x61, 0xC3, 0xB1, 0xFF], 5, 3)],
+        Tier::Thorough => vec![(b"ab", 14, 7), (b"abc", 9, 5), (&[0x61, 0xC3, 0xB1, 0xFF], 7, 4)],
         Tier::Miri => vec![(b"ab", 3, 2), (&[0x61, 0xC3, 0xB1], 2, 2)],
     };
     let mut bounds = String::new();
